@@ -52,7 +52,6 @@ structure TState where
   parenlev  : Int
   continued : Bool
   indents   : List Nat            -- innermost LAST (as in the Python list)
-  lastLine  : List Nat
   line      : Array Nat
   pos       : Nat
   max       : Nat
@@ -67,7 +66,7 @@ inductive Err where
 deriving DecidableEq, Repr, Inhabited
 
 def TState.init : TState :=
-  { lnum := 0, parenlev := 0, continued := false, indents := [0], lastLine := [], line := #[], pos := 0, max := 0, endProgs := [] }
+  { lnum := 0, parenlev := 0, continued := false, indents := [0], line := #[], pos := 0, max := 0, endProgs := [] }
 
 def slice (a : Array Nat) (i j : Nat) : List Nat := (a.extract i j).toList
 
@@ -124,7 +123,7 @@ def TState.progToken (st : TState) (e : Nat) (ty : TT) : Tok5 × TState :=
 
 /-- `move_next_line` (the reader is a list of remaining lines; "" at end of input). -/
 def TState.moveNextLine (st : TState) (line : List Nat) : TState :=
-  { st with lastLine := st.line.toList, line := line.toArray, lnum := st.lnum + 1, pos := 0, max := line.length }
+  { st with line := line.toArray, lnum := st.lnum + 1, pos := 0, max := line.length }
 
 def rstripNewlines (l : List Nat) : List Nat :=
   (l.reverse.dropWhile (fun c => c = 13 || c = 10)).reverse
@@ -345,9 +344,8 @@ def scanLine (E : Env) (P : Pats) : Nat → TState → List Tok5 → Except (Err
           else scanLine E P fuel st2 (acc ++ ts1)
     else .ok (st, acc)
 
-/-- `next_end_tokens` -/
-def nextEndTokens (E : Env) (st : TState) : List Tok5 :=
-  let ll := st.lastLine
+/-- `next_end_tokens`; `ll` is `state.last_line`: the line read before the one on which the loop stopped -/
+def nextEndTokens (E : Env) (ll : List Nat) (st : TState) : List Tok5 :=
   let nl : List Tok5 :=
     match ll.getLast? with
     | some c =>
@@ -382,7 +380,7 @@ def tokenizeLines (E : Env) (P : Pats) : Nat → List (List Nat) → TState → 
     match lineHead E P (st.moveNextLine (lines.headD [])) with
     | .error e => .error (e, acc)
     | .ok (s, ts, cont, brk) =>
-      if brk then .ok (acc ++ ts ++ nextEndTokens E s)
+      if brk then .ok (acc ++ ts ++ nextEndTokens E st.line.toList s)
       else if cont then tokenizeLines E P fuel lines.tail s (acc ++ ts)
       else
         match scanLine E P (2 * s.max + 4) s (acc ++ ts) with
